@@ -19,7 +19,6 @@ values, removing and adding entries; kept names keep their relative order.
 import os
 import warnings
 from types import SimpleNamespace as NS
-from typing import List, Tuple
 
 warnings.simplefilter('ignore')
 
@@ -31,10 +30,6 @@ except ImportError:
 
 import pharmpy.model.external.nonmem.update as U  # noqa: E402
 
-N = int(os.environ.get('VH_N', '3'))               # max number of old / new entries
-NAMES = int(os.environ.get('VH_NAMES', '4'))       # names 0..NAMES-1
-LEN_OLD = int(os.environ.get('VH_LENOLD', '-1'))   # optional case splits
-LEN_NEW = int(os.environ.get('VH_LENNEW', '-1'))
 
 
 class FP:
@@ -104,61 +99,318 @@ class CS:
 U.create_theta_record = lambda param: TRec([[param.name, param.val, ('created', param.name)]])
 
 
-def _edit_alphabet(o, n):
-    """names unique on each side; kept names in the same relative order on both sides"""
-    on = [a for a, _ in o]
-    nn = [a for a, _ in n]
-    if any(on[i] == on[j] for i in range(len(on)) for j in range(i)):
-        return False
-    if any(nn[i] == nn[j] for i in range(len(nn)) for j in range(i)):
-        return False
-    return [a for a in on if a in nn] == [a for a in nn if a in on]
+# ---- encoding of an edit: table indexes fixed per path by bisection, then everything is concrete ---------------------------
+try:
+    from crosshair.tracers import NoTracing as _NoTracing
+except ImportError:
+    import contextlib
+    _NoTracing = contextlib.nullcontext
+
+import itertools  # noqa: E402
+
+K = int(os.environ.get('VH_K', '3'))                # number of old entries (one process per K)
+MAXINS = int(os.environ.get('VH_MAXINS', '2'))      # at most this many added entries
+REGION = os.environ.get('VH_REGION', 'main')
 
 
-def _ranges(o, n):
-    # old entries are named 0..len(o)-1 in record order (the functions only compare names for equality, so this is a
-    # renaming of the general case); new names range over the old names and NAMES-len(o) fresh ones
-    return all(o[i][0] == i for i in range(len(o))) and all(0 <= b <= 1 for _, b in o) and \
-        all(0 <= a < NAMES and 0 <= b <= 1 for a, b in n)
+def _pick(x, lo, hi):
+    """Fix lo <= x < hi on this path by bisection (solver-decided branches); returns a native int."""
+    while hi - lo > 1:
+        mid = (lo + hi) // 2
+        if x < mid:
+            hi = mid
+        else:
+            lo = mid
+    return lo
 
 
-def thetas_ok(o: List[Tuple[int, int]], n: List[Tuple[int, int]], cut1: int, cut2: int, cut3: int) -> bool:
-    """
-    pre: len(o) <= N and len(n) <= N and (LEN_OLD < 0 or len(o) == LEN_OLD) and (LEN_NEW < 0 or len(n) == LEN_NEW)
-    pre: _ranges(o, n) and _edit_alphabet(o, n)
-    pre: 0 <= cut1 <= cut2 <= cut3 <= len(o)
-    post: _ == True
-    """
-    old = [FP(a, b) for a, b in o]
-    new = [FP(a, b) for a, b in n]
-    parts = [old[:cut1], old[cut1:cut2], old[cut2:cut3], old[cut3:]]
-    recs = [TRec([[p.name, p.val, ('orig', p.name)] for p in part]) for part in parts if part]
+def _compositions(k):
+    if k == 0:
+        return [()]
+    return [(first,) + rest for first in range(1, k + 1) for rest in _compositions(k - first)]
+
+
+COMPS = _compositions(K)                                              # record sizes, e.g. (2, 1): $THETA a b / $THETA c
+ACTS = list(itertools.product((0, 1, 2), repeat=K))                   # per old entry: 0 keep, 1 change value, 2 remove
+INS = [g for r in range(MAXINS + 1) for g in itertools.combinations_with_replacement(range(K + 1), r)]   # gaps
+
+
+def _body_thetas(c, a, g):
+    sizes, acts, gaps = COMPS[c], ACTS[a], INS[g]
+    old = [FP(i, 0) for i in range(K)]
+    new = []
+    fresh = K
+    for i in range(K + 1):
+        for _ in range(gaps.count(i)):
+            new.append(FP(fresh, 7))
+            fresh += 1
+        if i < K and acts[i] != 2:
+            new.append(FP(i, 0 if acts[i] == 0 else 1))
+    recs = []
+    pos = 0
+    for size in sizes:
+        recs.append(TRec([[p.name, p.val, ('orig', p.name)] for p in old[pos:pos + size]]))
+        pos += size
     model = NS(random_variables=NS(free_symbols=NoSymbols()),
                internals=NS(old_random_variables=NS(free_symbols=NoSymbols())))
-    cs = U.update_thetas(model, CS(recs), old, new)
+    cs = U.update_thetas(model, CS(list(recs)), old, new)
     flat = [it for r in cs.out for it in r.items]
     if len(flat) != len(new):
-        return False                                    # a theta lost or written twice
-    oldval = {p.name: p.val for p in old}
+        raise AssertionError(f'{len(flat)} thetas written for {len(new)} parameters: {flat}')
     for p in new:
         hits = [it for it in flat if it[0] == p.name]
         if len(hits) != 1 or hits[0][1] != p.val:
-            return False                                # re-reading would not give this parameter back
-        if p.name in oldval and oldval[p.name] == p.val and hits[0][2] != ('orig', p.name):
-            return False                                # an unchanged value lost its original spelling
-    # a record none of whose thetas changed and that holds one theta is passed through as the same object
+            raise AssertionError(f're-reading would not give {p} back: {flat}')
+        if p.name < K and p.val == 0 and hits[0][2] != ('orig', p.name):
+            raise AssertionError(f'unchanged theta {p.name} lost its original spelling: {flat}')
     for r in recs:
-        if len(r) == 1 and any(p.name == r.items[0][0] and p.val == r.items[0][1] for p in new):
-            if not any(x is r for x in cs.out):
-                return False
+        if len(r) == 1 and acts[r.items[0][0]] == 0 and not any(x is r for x in cs.out):
+            raise AssertionError('an untouched one-theta record was not passed through as is')
     return True
 
 
-def thetas_ok__twin(o: List[Tuple[int, int]], n: List[Tuple[int, int]], cut1: int, cut2: int, cut3: int) -> bool:
+def thetas_ok(c: int, a: int, g: int) -> bool:
     """
-    pre: len(o) <= N and len(n) <= N and (LEN_OLD < 0 or len(o) == LEN_OLD) and (LEN_NEW < 0 or len(n) == LEN_NEW)
-    pre: _ranges(o, n) and _edit_alphabet(o, n)
-    pre: 0 <= cut1 <= cut2 <= cut3 <= len(o)
+    pre: 0 <= c < len(COMPS) and 0 <= a < len(ACTS) and 0 <= g < len(INS)
     post: _ == True
     """
-    return not thetas_ok(o, n, cut1, cut2, cut3)
+    codes = [_pick(c, 0, len(COMPS)), _pick(a, 0, len(ACTS)), _pick(g, 0, len(INS))]
+    with _NoTracing():
+        return _body_thetas(*codes)
+
+
+def thetas_ok__twin(c: int, a: int, g: int) -> bool:
+    """
+    pre: 0 <= c < len(COMPS) and 0 <= a < len(ACTS) and 0 <= g < len(INS)
+    post: _ == True
+    """
+    codes = [_pick(c, 0, len(COMPS)), _pick(a, 0, len(ACTS)), _pick(g, 0, len(INS))]
+    with _NoTracing():
+        return _body_thetas(*codes) is not True
+
+
+# ---- (4) update_random_variables / update_random_variable_records --------------------------------------------------------
+# Real pharmpy distributions, RandomVariables, Parameters and the real lcs.diff; only the records are stubs.
+from pharmpy.basic import Expr  # noqa: E402
+from pharmpy.model import (  # noqa: E402
+    JointNormalDistribution,
+    NormalDistribution,
+    Parameter,
+    Parameters,
+    RandomVariables,
+)
+
+
+class ORec:
+    """Contract stub of OmegaRecord. kind 'D': DIAGONAL record, one distribution per item; kind 'B': one BLOCK
+    distribution whose items are its lower-triangular parameters. items = [parameter name, value, spelling]."""
+
+    def __init__(self, kind, items):
+        self.kind = kind
+        self.items = [list(it) for it in items]
+
+    def __len__(self):
+        return len(self.items) if self.kind == 'D' else 1
+
+    def remove(self, inds):
+        if len(inds) == 0:
+            return self
+        assert self.kind == 'D', 'remove on a BLOCK record is not used by the updater for whole distributions'
+        idx = [i for i, _ in inds]
+        assert all(0 <= i < len(self.items) for i in idx) and len(set(idx)) == len(idx), ('remove', inds)
+        return ORec('D', [it for i, it in enumerate(self.items) if i not in idx])
+
+    def update(self, params):
+        assert len(params) == len(self.items), ('update: parameter list does not line up', params, self.items)
+        new = []
+        for it, p in zip(self.items, params):
+            assert p.name == it[0], ('update: value of another parameter written here', p.name, it)
+            new.append([it[0], p.init, it[2] if p.init == it[1] else ('respelled', it[0])])
+        return ORec(self.kind, new)
+
+
+class CS2:
+    def __init__(self, omegas, sigmas):
+        self.recs = {'OMEGA': omegas, 'SIGMA': sigmas}
+        self.out = {}
+
+    def get_records(self, name):
+        return self.recs[name]
+
+    def replace_all(self, name, new):
+        self.out[name] = list(new)
+        return self
+
+
+def _tri(dist):
+    n = len(dist)
+    if n == 1:
+        return [dist.variance.name]
+    return [dist.variance[r, c].name for r in range(n) for c in range(r + 1)]
+
+
+def _create_single(model, rv, eta_number):
+    p = model.parameters[rv.parameter_names[0]]
+    return ORec('D', [[p.name, p.init, ('created', p.name)]])
+
+
+def _create_block(model, dist, eta_number):
+    return ORec('B', [[nm, model.parameters[nm].init, ('created', nm)] for nm in _tri(dist)])
+
+
+U.create_omega_single = _create_single
+U.create_omega_block = _create_block
+
+# old layouts: sequences of records; 'D', m = DIAGONAL record with m items, 'B', s = BLOCK(s)
+RECORD_KINDS = [('D', 1), ('D', 2), ('D', 3), ('B', 2), ('B', 3)]
+
+
+def _layouts(k):
+    """all sequences of records holding k distributions in total"""
+    if k == 0:
+        return [()]
+    out = []
+    for kind, m in RECORD_KINDS:
+        nd = m if kind == 'D' else 1
+        if nd <= k:
+            out += [((kind, m),) + rest for rest in _layouts(k - nd)]
+    return out
+
+
+LAYOUTS = _layouts(K)
+OINS = [g for r in range(MAXINS + 1)
+        for g in itertools.combinations_with_replacement([(i, b) for i in range(K + 1) for b in (1, 2)], r)]
+
+
+_DISTS = {}
+
+
+def _mk_dist(tag, size):
+    if (tag, size) not in _DISTS:      # distributions are immutable values; creating a joint one costs ~0.1 s (sympy)
+        _DISTS[(tag, size)] = _mk_dist_(tag, size)
+    return _DISTS[(tag, size)]
+
+
+def _mk_dist_(tag, size):
+    names = [f'ETA_{tag}{i}' for i in range(size)] if size > 1 else [f'ETA_{tag}']
+    if size == 1:
+        return NormalDistribution.create(names[0], 'iiv', 0, Expr.symbol(f'OM_{tag}'))
+    cov = [[Expr.symbol(f'OM_{tag}_{max(r, c)}{min(r, c)}') for c in range(size)] for r in range(size)]
+    return JointNormalDistribution.create(names, 'iiv', [0] * size, cov)
+
+
+def _init(name, bump):
+    # diagonal elements OM_x / OM_x_ii get 1 (+bump), off-diagonal 0.125 (+bump/8): positive definite
+    diag = '_' not in name[3:] or name[-1] == name[-2]
+    return (1.0 + bump) if diag else (0.125 + bump / 8)
+
+
+def _region_omegas(layout, acts, gaps):
+    """'omega_insert_into_diag' iff an entry is added between two KEPT distributions of one DIAGONAL record."""
+    pos = 0
+    for kind, m in layout:
+        if kind == 'D' and m > 1:
+            for gap, _ in gaps:
+                if pos < gap < pos + m:
+                    before = any(acts[i] != 2 for i in range(pos, gap))
+                    after = any(acts[i] != 2 for i in range(gap, pos + m))
+                    if before and after:
+                        return 'omega_insert_into_diag'
+        pos += m if kind == 'D' else 1
+    return 'main'
+
+
+def _body_omegas(lay, a, g):
+    layout, acts, gaps = LAYOUTS[lay], ACTS[a], OINS[g]
+    if _region_omegas(layout, acts, gaps) != REGION:
+        return None
+    olds = []
+    recs = []
+    pvals = {}
+    tag = 0
+    for kind, m in layout:
+        if kind == 'D':
+            ds = [_mk_dist(chr(65 + tag + i), 1) for i in range(m)]
+            tag += m
+        else:
+            ds = [_mk_dist(chr(65 + tag), m)]
+            tag += 1
+        items = []
+        for d in ds:
+            for nm in _tri(d):
+                pvals[nm] = _init(nm, 0)
+                items.append([nm, pvals[nm], ('orig', nm)])
+        recs.append(ORec(kind, items))
+        olds += ds
+    eps = NormalDistribution.create('EPS_1', 'ruv', 0, Expr.symbol('SI'))
+    pvals['SI'] = 1.0
+    srec = ORec('D', [['SI', 1.0, ('orig', 'SI')]])
+    news = []
+    newvals = dict(pvals)
+    fresh = 0
+    for i in range(K + 1):
+        for gap, size in gaps:
+            if gap == i:
+                d = _mk_dist('N' + str(fresh), size)
+                fresh += 1
+                news.append(d)
+                for nm in _tri(d):
+                    newvals[nm] = _init(nm, 0)
+        if i < K and acts[i] != 2:
+            news.append(olds[i])
+            if acts[i] == 1:
+                for nm in _tri(olds[i]):
+                    newvals[nm] = _init(nm, 1)
+    for i in range(K):
+        if acts[i] == 2:
+            for nm in _tri(olds[i]):
+                del newvals[nm]
+    old_rvs = RandomVariables.create(olds + [eps])
+    new_rvs = RandomVariables.create(news + [eps])
+    params = Parameters.create([Parameter.create(nm, v) for nm, v in newvals.items()])
+    cs = CS2(list(recs), [srec])
+    model = NS(internals=NS(control_stream=cs, old_random_variables=old_rvs), random_variables=new_rvs,
+               parameters=params)
+    U.update_random_variables(model, old_rvs, new_rvs)
+    # read the records back positionally: ETA(i) <-> i-th distribution slot
+    slots = []
+    for r in cs.out['OMEGA']:
+        if r.kind == 'D':
+            slots += [[it] for it in r.items]
+        else:
+            slots.append(r.items)
+    if len(slots) != len(news):
+        raise AssertionError(f'{len(slots)} distributions written for {len(news)} etas')
+    for d, slot in zip(news, slots):
+        want = _tri(d)
+        if [it[0] for it in slot] != want:
+            raise AssertionError(f'eta {d.names}: position holds {[it[0] for it in slot]}, model has {want}')
+        for it in slot:
+            if it[1] != newvals[it[0]]:
+                raise AssertionError(f'{it[0]}: record says {it[1]}, model has {newvals[it[0]]}')
+            if it[0] in pvals and pvals[it[0]] == newvals[it[0]] and it[2] != ('orig', it[0]):
+                raise AssertionError(f'unchanged {it[0]} lost its original spelling')
+    sig = [it for r in cs.out['SIGMA'] for it in r.items]
+    if [(it[0], it[1], it[2]) for it in sig] != [('SI', 1.0, ('orig', 'SI'))]:
+        raise AssertionError(f'untouched $SIGMA changed: {sig}')
+    return True
+
+
+def omegas_ok(lay: int, a: int, g: int) -> bool:
+    """
+    pre: 0 <= lay < len(LAYOUTS) and 0 <= a < len(ACTS) and 0 <= g < len(OINS)
+    post: _ in (True, None)
+    """
+    codes = [_pick(lay, 0, len(LAYOUTS)), _pick(a, 0, len(ACTS)), _pick(g, 0, len(OINS))]
+    with _NoTracing():
+        return _body_omegas(*codes)
+
+
+def omegas_ok__twin(lay: int, a: int, g: int) -> bool:
+    """
+    pre: 0 <= lay < len(LAYOUTS) and 0 <= a < len(ACTS) and 0 <= g < len(OINS)
+    post: _ == True
+    """
+    codes = [_pick(lay, 0, len(LAYOUTS)), _pick(a, 0, len(ACTS)), _pick(g, 0, len(OINS))]
+    with _NoTracing():
+        return _body_omegas(*codes) is not True
